@@ -308,3 +308,68 @@ def _map_stmt_exprs(s, fn):
     if s[0] == "for":
         s[3] = [_map_stmt_exprs(b, fn) for b in s[3]]
     return s
+
+
+# ------------------------------------------------------------------ rename_implicit
+
+def rename_implicit(prog, fresh):
+    """Give every untyped value a fresh, otherwise unused explicit type (C13 twin).
+
+    fresh: callable returning a new explicit signal name.  Inputs without a type and
+    memories without a type get one; every sub-expression whose value is carried on a
+    compiler-chosen signal is projected onto a fresh signal (except where the grammar wants a
+    bare comparison: the condition of `cond : value`)."""
+    out = []
+    for i, s in enumerate(prog):
+        s = copy.deepcopy(s)
+        if s[0] == "input" and s[2] is None:
+            s[2] = fresh()
+            out.append(s)
+            continue
+        if s[0] == "mem" and s[2] is None:
+            s[2] = fresh()
+            out.append(s)
+            continue
+        if s[0] in ("sig", "set", "write", "latch"):
+            try:
+                it = lang.Interp(out).run()
+            except Exception:  # noqa: BLE001
+                out.append(s)
+                continue
+
+            def wrap(n, _it=it):
+                if n[0] in ("n", "v", "t", "p", "r"):
+                    return n
+                try:
+                    v = _it.ev(n)
+                except Exception:  # noqa: BLE001
+                    return n
+                if v.kind == "sig" and v.type is None:
+                    return ["p", n, fresh()]
+                return n
+
+            def rewrite(e, top=True):
+                if not (isinstance(e, list) and e and e[0] in lang._EXPR_KINDS):
+                    return e
+                if e[0] == "s":
+                    # keep the condition a bare comparison; rewrite inside its operands only
+                    c = e[1]
+                    c2 = [c[0]] + [rewrite(x) if isinstance(x, list) and x and x[0] in lang._EXPR_KINDS else x for x in c[1:]]
+                    return wrap(["s", c2, rewrite(e[2])])
+                if e[0] in ("any", "all", "bf", "bg", "bb", "bs", "B", "eo"):
+                    return e
+                e2 = [e[0]] + [rewrite(x) if isinstance(x, list) and x and isinstance(x[0], str) and x[0] in lang._EXPR_KINDS else x
+                               for x in e[1:]]
+                return wrap(e2)
+
+            if s[0] == "sig":
+                s[2] = rewrite(s[2])
+            elif s[0] == "set":
+                pass
+            elif s[0] == "write":
+                mt = next((m[2] for m in out if m[0] == "mem" and m[1] == s[1]), None)
+                s[2] = rewrite(s[2])
+                if mt is not None and not (s[2][0] == "p" and s[2][2] == mt):
+                    s[2] = ["p", s[2], mt]
+        out.append(s)
+    return out
